@@ -1,19 +1,27 @@
 import P.Resolver
 namespace Proto
 
-/-- a state on which a strict (last-mode) pass is stable -/
-def LastFix {σ} (pass : Pass σ) (r : σ) : Prop := ∃ f, pass ⟨f, true⟩ r = .ok (r, true)
-
 structure Laws {σ} (pass : Pass σ) : Prop where
   stableId : StableIsIdentity pass
-  /-- a guessing pass never errs or moves where the strict pass is stable -/
-  modeMono : ∀ r, LastFix pass r → ∀ f, ∃ b, pass ⟨f, false⟩ r = .ok (r, b)
+  firstStable : FirstStable pass
+  /-- where the strict pass succeeds and is stable, the guessing pass computes the same state
+      (guessing only replaces errors by `Unknown`; `b = false` only for `#assert`) -/
+  modeMono : ∀ f s s', pass ⟨f, true⟩ s = .ok (s', true) → ∃ b, pass ⟨f, false⟩ s = .ok (s', b)
   /-- the `first` flag only sets short-cut marks -/
   firstIrrel : ∀ r, LastFix pass r → ∀ f, pass ⟨f, true⟩ r = .ok (r, true)
 
+theorem lastFix_of_stable {σ} (pass : Pass σ) (L : Laws pass) (f : Bool) (s s' : σ)
+    (hp : pass ⟨f, true⟩ s = .ok (s', true)) : LastFix pass s' := by
+  cases f with
+  | true => exact L.firstStable _ _ _ hp
+  | false =>
+    have := L.stableId _ _ _ hp
+    subst this
+    exact ⟨false, hp⟩
+
 /-- from a strict fixed point the loop can only end there -/
 theorem loop_from_fix {σ} (pass : Pass σ) (L : Laws pass) (m : Nat) (r : σ) (hr : LastFix pass r) :
-    ∀ fuel i, i + fuel = m → 
+    ∀ fuel i, i + fuel = m →
       (∃ k, loop pass m fuel i r = .ok (.inl (k, r))) ∨ (∃ k, loop pass m fuel i r = .ok (.inr (k, r))) := by
   intro fuel
   induction fuel with
@@ -21,13 +29,12 @@ theorem loop_from_fix {σ} (pass : Pass σ) (L : Laws pass) (m : Nat) (r : σ) (
   | succ n ih =>
     intro i hi
     simp only [loop]
+    have hstrict := L.firstIrrel r hr (i + 1 == 1)
     by_cases hl : (i + 1 == m) = true
-    · -- last iteration
-      have := L.firstIrrel r hr (i + 1 == 1)
-      simp only [hl]
-      rw [this]; simp
+    · simp only [hl]
+      rw [hstrict]; simp
     · have hl' : (i + 1 == m) = false := by simpa using hl
-      obtain ⟨b, hb⟩ := L.modeMono r hr (i + 1 == 1)
+      obtain ⟨b, hb⟩ := L.modeMono _ _ _ hstrict
       simp only [hl']
       rw [hb]
       cases b with
@@ -36,24 +43,10 @@ theorem loop_from_fix {σ} (pass : Pass σ) (L : Laws pass) (m : Nat) (r : σ) (
         simp
         exact ih (i + 1) (by omega)
 
-/-- finishing: whatever way the loop leaves a strict fixed point, `iterate`'s tail succeeds with it -/
-theorem finish_from {σ} (pass : Pass σ) (L : Laws pass) (r : σ) (hr : LastFix pass r)
-    (x : Sum (Nat × σ) (Nat × σ)) (hx : (∃ k, x = .inl (k, r)) ∨ (∃ k, x = .inr (k, r))) :
-    ∃ k', (match x with
-      | .inl p => Out.ok p
-      | .inr (i, s') => match pass ⟨false, true⟩ s' with
-        | .ok (s'', true) => Out.ok (i, s'')
-        | _ => Out.err) = Out.ok (k', r) := by
-  rcases hx with ⟨k, rfl⟩ | ⟨k, rfl⟩
-  · exact ⟨k, rfl⟩
-  · refine ⟨k, ?_⟩
-    simp only
-    rw [L.firstIrrel r hr false]
-
 /-- main simulation lemma: run budgets `n ≤ m` side by side from the same point -/
 theorem loop_sim {σ} (pass : Pass σ) (L : Laws pass) (n m : Nat) (hnm : n ≤ m) :
     ∀ fuel i s, i + fuel = n →
-      (∀ k r, loop pass n fuel i s = .ok (.inr (k, r)) → i + fuel = n → 
+      (∀ k r, loop pass n fuel i s = .ok (.inr (k, r)) →
           (fuel = 0 ∧ k = i ∧ r = s) ∨ loop pass m (fuel + (m - n)) i s = .ok (.inr (k, r))) ∧
       (∀ k r, loop pass n fuel i s = .ok (.inl (k, r)) →
           LastFix pass r ∧
@@ -64,19 +57,18 @@ theorem loop_sim {σ} (pass : Pass σ) (L : Laws pass) (n m : Nat) (hnm : n ≤ 
   | zero =>
     intro i s hi
     constructor
-    · intro k r h _; left; simp [loop] at h; exact ⟨rfl, h.1.symm, h.2.symm⟩
+    · intro k r h; left; simp [loop] at h; exact ⟨rfl, h.1.symm, h.2.symm⟩
     · intro k r h; simp [loop] at h
   | succ f ih =>
     intro i s hi
     have hstep : f + 1 + (m - n) = (f + (m - n)) + 1 := by omega
     constructor
-    · intro k r h _
+    · intro k r h
       right
       rw [hstep]
       simp only [loop] at h ⊢
       by_cases hln : (i + 1 == n) = true
-      · -- last iteration for budget n: result cannot be inr
-        simp only [hln] at h
+      · simp only [hln] at h
         split at h <;> simp at h
       · have hln' : (i + 1 == n) = false := by simpa using hln
         have hlm' : (i + 1 == m) = false := by
@@ -88,10 +80,9 @@ theorem loop_sim {σ} (pass : Pass σ) (L : Laws pass) (n m : Nat) (hnm : n ≤ 
         · simpa using h
         · rename_i s' hp
           simp at h
-          have := (ih (i + 1) s' (by omega)).1 k r h (by omega)
+          have := (ih (i + 1) s' (by omega)).1 k r h
           rcases this with ⟨hf, _, _⟩ | this
           · exfalso
-            -- fuel f = 0 means i + 1 = n, contradiction with hln'
             simp at hln'; omega
           · simpa using this
     · intro k r h
@@ -103,12 +94,22 @@ theorem loop_sim {σ} (pass : Pass σ) (L : Laws pass) (n m : Nat) (hnm : n ≤ 
         · rename_i s' hp
           simp at h
           obtain ⟨_, rfl⟩ := h
-          -- strict pass from s gave (s', true)
-          have hs : s' = s := L.stableId _ _ _ hp
-          subst hs
-          have hfix : LastFix pass s' := ⟨_, hp⟩
+          have hfix : LastFix pass s' := lastFix_of_stable pass L _ _ _ hp
           refine ⟨hfix, ?_⟩
-          exact loop_from_fix pass L m s' hfix _ _ (by simp at hln; omega)
+          rw [hstep]
+          simp only [loop]
+          by_cases hlm : (i + 1 == m) = true
+          · simp only [hlm]
+            rw [hp]; simp
+          · have hlm' : (i + 1 == m) = false := by simpa using hlm
+            obtain ⟨b, hb⟩ := L.modeMono _ _ _ hp
+            simp only [hlm']
+            rw [hb]
+            cases b with
+            | true => simp
+            | false =>
+              simp
+              exact loop_from_fix pass L m s' hfix _ _ (by simp at hln; omega)
         · simp at h
       · have hln' : (i + 1 == n) = false := by simpa using hln
         have hlm' : (i + 1 == m) = false := by
@@ -182,7 +183,7 @@ theorem budget_monotone {σ} (pass : Pass σ) (L : Laws pass) (n m : Nat) (hn : 
       obtain ⟨rfl, rfl⟩ := h
       have hs : s'' = s' := L.stableId _ _ _ hp
       subst hs
-      rcases sim.1 i s'' hx (by omega) with ⟨hf, _, _⟩ | hk
+      rcases sim.1 i s'' hx with ⟨hf, _, _⟩ | hk
       · omega
       · unfold iterate
         rw [hm] at hk
